@@ -5,6 +5,7 @@ package c16
 import (
 	"bytes"
 	"fmt"
+	"github.com/google/pprof/internal/plugin"
 	"github.com/google/pprof/internal/transport"
 	"io"
 	"log"
@@ -13,6 +14,7 @@ import (
 	"net/http/httptest"
 	"os"
 	"path/filepath"
+	"regexp"
 	"sort"
 	"strings"
 	"sync"
@@ -532,6 +534,199 @@ func (t *seqTransport) RoundTrip(req *http.Request) (*http.Response, error) {
 	return resp, err
 }
 
+// part httperrors: pprof's own HTTP fetcher against sources that answer with an error status in
+// every shape a server may give it (with and without the X-Go-Pprof header, text or other content
+// type, empty body, message with and without a final newline, several lines, binary junk): one
+// error line for that source, the report is that of the good sources.
+type respSpec struct {
+	status int
+	header http.Header
+	body   []byte
+}
+
+type specTransport map[string]respSpec
+
+func (t specTransport) RoundTrip(req *http.Request) (*http.Response, error) {
+	sp, ok := t[req.URL.Host]
+	if !ok {
+		return nil, fmt.Errorf("no route to %s", req.URL)
+	}
+	h := http.Header{}
+	for k, v := range sp.header {
+		h[k] = v
+	}
+	return &http.Response{StatusCode: sp.status, Status: fmt.Sprintf("%d %s", sp.status, http.StatusText(sp.status)), Header: h, Body: io.NopCloser(bytes.NewReader(sp.body)), Request: req}, nil
+}
+
+func runHTTPErrors(c *harness.Ctx) harness.Result {
+	r := c.Rng
+	drv.IsolateEnv(c.Tmp)
+	tr := specTransport{}
+	var urls []string
+	var want int64
+	ngood, nbad := 1+r.Intn(3), 1+r.Intn(2)
+	for i := 0; i < ngood; i++ {
+		p := genProfile(r, 10*(i+1))
+		for _, sm := range p.Sample {
+			for k := range sm.Value {
+				sm.Value[k] = int64(10 * (i + 1))
+			}
+			want += sm.Value[0]
+		}
+		var buf bytes.Buffer
+		p.Write(&buf)
+		host := fmt.Sprintf("good%d.test", i)
+		tr[host] = respSpec{200, http.Header{}, buf.Bytes()}
+		urls = append(urls, "http://"+host+"/debug/pprof/heap")
+	}
+	var shapes []string
+	for i := 0; i < nbad; i++ {
+		h := http.Header{}
+		if r.Intn(3) > 0 {
+			h.Set("X-Go-Pprof", "1")
+		}
+		if r.Intn(3) > 0 {
+			h.Set("Content-Type", []string{"text/plain; charset=utf-8", "text/plain", "text/html", "application/octet-stream"}[r.Intn(4)])
+		}
+		body := [][]byte{nil, []byte("boom"), []byte("boom\n"), []byte("Could not enable CPU profiling: already in use"), []byte("line one\nline two"), []byte("line one\nline two\n"), {0x1f, 0x8b, 0, 1, 2}, []byte("\n")}[r.Intn(8)]
+		st := []int{500, 404, 403, 503, 400, 302}[r.Intn(6)]
+		host := fmt.Sprintf("bad%d.test", i)
+		tr[host] = respSpec{st, h, body}
+		urls = append(urls, "http://"+host+"/debug/pprof/heap")
+		shapes = append(shapes, fmt.Sprintf("%d %v %q", st, h, body))
+	}
+	r.Shuffle(len(urls), func(i, j int) { urls[i], urls[j] = urls[j], urls[i] })
+	desc := fmt.Sprintf("%d good sources and %d answering %v, in the order %v", ngood, nbad, shapes, urls)
+	res := harness.Result{NonTrivial: true, Sig: desc, Sample: desc}
+	s := &drv.Session{Flags: &drv.Flags{Bools: map[string]bool{"top": true, "functions": true, "flat": true, "trim": false}, Strs: map[string]string{"output": "out", "symbolize": "none", "sample_index": "v"}, Args: urls}, RoundTr: tr}
+	rr := s.Run()
+	c.Stat("http_error_sessions", 1)
+	if rr.Panic != "" {
+		return harness.Violation("%s: panic %s", desc, rr.Panic)
+	}
+	if rr.Err != nil {
+		return harness.Violation("%s: pprof failed although %d sources can be fetched: %v %v", desc, ngood, rr.Err, trunc(s.UI.Errs))
+	}
+	for i := 0; i < nbad; i++ {
+		u := fmt.Sprintf("http://bad%d.test/debug/pprof/heap", i)
+		n := 0
+		for _, e := range s.UI.Errs {
+			if strings.HasPrefix(e, u+": ") {
+				n++
+			}
+		}
+		if n != 1 {
+			res.Verdict, res.Detail = harness.Violated, fmt.Sprintf("%s: %d error lines for %s, exactly one expected; ui: %v", desc, n, u, trunc(s.UI.Errs))
+			return res
+		}
+	}
+	out := ""
+	if bf := s.Writer.Files["out"]; bf != nil {
+		out = bf.String()
+	}
+	h, _, err := parse.Top(out)
+	if err != nil {
+		return harness.Violation("%s: -top unparseable: %v", desc, err)
+	}
+	if h.Total != want {
+		res.Verdict, res.Detail = harness.Violated, fmt.Sprintf("%s: the report total is %d, the good sources sum to %d", desc, h.Total, want)
+	}
+	return res
+}
+
+// part binaries: local copies of the binaries under PPROF_BINARY_PATH in a symfs-style tree
+// (<path>/usr/bin/app, <path>/opt/bin/app). Two good sources name binaries with the same base name in
+// different directories and carry no build ids; a third source may fail. Which local binary a good
+// source is attributed to must not depend on the other sources.
+type existObj struct{}
+
+type existFile struct{ name string }
+
+func (existObj) Open(file string, start, limit, offset uint64, rs string) (plugin.ObjFile, error) {
+	if st, err := os.Stat(file); err != nil || st.IsDir() {
+		return nil, fmt.Errorf("no such file %s", file)
+	}
+	return existFile{file}, nil
+}
+func (existObj) Disasm(string, uint64, uint64, bool) ([]plugin.Inst, error) {
+	return nil, fmt.Errorf("no disasm")
+}
+func (f existFile) Name() string                                          { return f.name }
+func (f existFile) ObjAddr(a uint64) (uint64, error)                      { return a, nil }
+func (f existFile) BuildID() string                                       { return "" }
+func (f existFile) SourceLine(uint64) ([]plugin.Frame, error)             { return nil, nil }
+func (f existFile) Symbols(*regexp.Regexp, uint64) ([]*plugin.Sym, error) { return nil, nil }
+func (f existFile) Close() error                                          { return nil }
+
+func runBinaries(c *harness.Ctx) harness.Result {
+	r := c.Rng
+	drv.IsolateEnv(c.Tmp)
+	root := filepath.Join(c.Tmp, "symfs")
+	dirs := []string{"/usr/bin", "/opt/bin", "/srv/app/bin"}
+	base := []string{"app", "server", "a.out"}[r.Intn(3)]
+	for _, d := range dirs {
+		os.MkdirAll(filepath.Join(root, d), 0o755)
+		os.WriteFile(filepath.Join(root, d, base), []byte("x"), 0o755)
+	}
+	os.Setenv("PPROF_BINARY_PATH", root)
+	defer os.Unsetenv("PPROF_BINARY_PATH")
+	n := 2 + r.Intn(2)
+	profs := map[string]*profile.Profile{}
+	var srcs []string
+	want := map[string]bool{}
+	for i := 0; i < n; i++ {
+		file := dirs[i] + "/" + base
+		p := &profile.Profile{SampleType: []*profile.ValueType{{Type: "samples", Unit: "count"}}, PeriodType: &profile.ValueType{Type: "cpu", Unit: "ns"}, Period: 1}
+		m := &profile.Mapping{ID: 1, Start: 0x400000, Limit: 0x500000, File: file}
+		l := &profile.Location{ID: 1, Mapping: m, Address: 0x400100 + uint64(r.Intn(3))*16}
+		p.Mapping, p.Location = []*profile.Mapping{m}, []*profile.Location{l}
+		p.Sample = []*profile.Sample{{Value: []int64{int64(1 + i)}, Location: []*profile.Location{l}}}
+		name := fmt.Sprintf("s%d", i)
+		profs[name] = p
+		srcs = append(srcs, name)
+		want[filepath.Join(root, file)] = true
+	}
+	if r.Intn(2) == 0 {
+		srcs = append(srcs, "missing")
+		r.Shuffle(len(srcs), func(i, j int) { srcs[i], srcs[j] = srcs[j], srcs[i] })
+	}
+	desc := fmt.Sprintf("sources %v naming %s in %v, local copies under PPROF_BINARY_PATH", srcs, base, dirs[:n])
+	res := harness.Result{NonTrivial: true, Sig: desc + fmt.Sprint(c.Index), Sample: desc}
+	for rep := 0; rep < 3; rep++ {
+		ui := &drv.UI{}
+		sesn := &drv.Session{Flags: &drv.Flags{Bools: map[string]bool{"proto": true, "addresses": true}, Strs: map[string]string{"output": "out", "symbolize": "none"}, Args: srcs},
+			Fetch: &drv.MapFetcher{Profiles: profs}, Obj: existObj{}, UI: ui}
+		rr := sesn.Run()
+		if rr.Panic != "" || rr.Err != nil {
+			return harness.Violation("%s: pprof failed: %v %s %v", desc, rr.Err, rr.Panic, trunc(ui.Errs))
+		}
+		q, err := profile.ParseData(sesn.Writer.Files["out"].Bytes())
+		if err != nil {
+			return harness.Violation("%s: saved profile unparseable: %v", desc, err)
+		}
+		c.Stat("binaries_runs", 1)
+		got := map[string]bool{}
+		for _, m := range q.Mapping {
+			got[m.File] = true
+		}
+		if fmt.Sprint(sortedKeys(got)) != fmt.Sprint(sortedKeys(want)) {
+			res.Verdict = harness.Violated
+			res.Detail = fmt.Sprintf("%s: the saved profile attributes the samples to the binaries %v; every good source alone resolves to its own copy, i.e. %v", desc, sortedKeys(got), sortedKeys(want))
+			return res
+		}
+	}
+	return res
+}
+
+func sortedKeys(m map[string]bool) []string {
+	var out []string
+	for k := range m {
+		out = append(out, k)
+	}
+	sort.Strings(out)
+	return out
+}
+
 // RunTLS is also run by C20 in the race build (Free: no forced completion order).
 func RunTLS(c *harness.Ctx) harness.Result { return runTLS(c, false) }
 
@@ -665,9 +860,10 @@ func init() {
 		ID:    "C16",
 		Level: "fault_enumeration",
 		Rule: "source lists of 1,2,3,5,127,128,129,256,257,300 sources (cycled) with optional 1/2/130 bases; 30% of the profiles have another set or order of sample types ([v n], [v], [x v] instead of [n v]) so that only v is common; failing subset in {none, one, first, last, all-but-one, a whole 128-chunk, all, random} x failure kind per source in {Fetcher error, structurally invalid profile, missing file, HTTP 404, HTTP 500, garbage body, gzip stream cut short}; every fetch blocks at a gate; the controller collects the fetches that have arrived (all outstanding ones, or what is there once no new one arrives for 60 ms - it assumes nothing about pprof's batch size) and releases them one by one in a seed-chosen permutation, each after the previous one completed (completion order inside every batch forced exactly; arrival/release/completion events recorded); every listed source must be asked for exactly once; 3-6 different completion orders per case. " +
+			"part binaries: local copies of equally named binaries in a symfs-style tree under PPROF_BINARY_PATH, no build ids, 2-3 good sources plus an optional failing one: the saved profile names every source's own copy. part httperrors: pprof's own HTTP fetcher, 1-3 good sources and 1-2 answering with an error status in every shape (X-Go-Pprof header or not, content types, empty body, message with/without final newline, several lines, junk): one error line each, report = good sources. " +
 			"part tls: pprof's own transport against two loopback TLS servers with self-signed certificates, one listed as https+insecure:// and one as https://, answered in a forced order: the https source must fail with one error line and the report be that of the other source alone. A case that does not finish within 2 min in 3 of 3 fresh processes is a hang (violation). oracle: fails iff no source (or, with bases, no base) succeeded; exactly one UI error line per failed source naming it and none for good ones; byte-identical -traces across completion orders; -traces equal to the run listing only the successful sources; -top equal to the entry-wise signed sum of the successful profiles' reference reports. non-trivial = at least 2 sources; distinct = run description; distinct_observed = distinct release-order prefixes",
 		Assumptions:   []string{"failing subsets and kinds are enumerated per list shape; completion orders are sampled (3-6 of n! per chunk)"},
-		Parts:         []harness.Part{{Name: "fetch", Quick: 400, Thor: 12000, Run: run}, {Name: "tls", Quick: 8, Thor: 200, Run: RunTLS}},
+		Parts:         []harness.Part{{Name: "fetch", Quick: 400, Thor: 12000, Run: run}, {Name: "tls", Quick: 8, Thor: 200, Run: RunTLS}, {Name: "binaries", Quick: 40, Thor: 2000, Run: runBinaries}, {Name: "httperrors", Quick: 60, Thor: 3000, Run: runHTTPErrors}},
 		CaseTimeout:   2 * time.Minute,
 		HangTries:     3,
 		MinNonTrivial: func(string) int { return 100 },
